@@ -1128,6 +1128,11 @@ pub const NEST_CONTAINERS: &[&str] = &[
     "*strong §#◊*\n",
     "$ f(§#◊) + g(x, §#◊) $\n",
     "$ §#◊ $\n",
+    // cells of a table that takes the row layout, and of one that does not
+    "#table(columns: 2, §◊, [b])\n",
+    "#{\n  grid(columns: (1fr, auto), [a], §◊)\n}\n",
+    "#table(§◊, [b])\n",
+    "#import \"m.typ\": a\n#let v = a.b.c(§◊)\n",
 ];
 
 pub const NEST_PAYLOADS: &[&str] = &[
